@@ -335,7 +335,85 @@ class BytesModel:
         return eng.alloc(st, "bytes", "bytes", len=z3.IntVal(len(d["v"])), b=b)
 
 
+# ------------------------------------------------------- small dict keyed by a fixed set of strings (repeated terms)
+class SlotDictModel:
+    """dict[str, term] over the fixed keys subject/predicate/object/graph (Decoder.repeated_terms): one optional value per key"""
+    name = "A-CPY dict with constant string keys"
+    kind = "slotdict"
+    KEYS = ("subject", "predicate", "object", "graph")
+
+    def make(self, eng: Any, st: State, sort: Sort, name: str) -> tuple[State, Any, list]:
+        fields = {}
+        invs: list = []
+        for k in self.KEYS:
+            st, v, inv = eng.make(st, Sort("opt", sort.arg), f"{name}[{k}]")
+            fields[k] = v
+            invs += inv
+        st, r = eng.alloc(st, "slotdict", "dict", **fields)
+        return st, r, invs
+
+    def getattr(self, eng: Any, st: State, r: Ref, attr: str, node: Any, ctx: Any):
+        yield st, BuiltinMethod(r, attr)
+
+    def getitem(self, eng: Any, st: State, r: Ref, k: Any, node: Any, ctx: Any):
+        if not isinstance(k, str) or k not in self.KEYS:
+            raise Unsupported("repeated-terms dict used with a key outside subject/predicate/object/graph", node)
+        v = st.obj(r).get(k)
+        for st1, isn in eng.branch(st, v.isnone, f"L{_line(node)}rep[{k}]"):
+            if isn:
+                yield st1, Raised(ExcVal("KeyError"))
+            else:
+                yield st1, v.val
+
+    def setitem(self, eng: Any, st: State, r: Ref, k: Any, v: Any, node: Any, ctx: Any):
+        if not isinstance(k, str) or k not in self.KEYS:
+            raise Unsupported("repeated-terms dict used with a key outside subject/predicate/object/graph", node)
+        if v is None:
+            raise Unsupported("None stored as a repeated term", node)
+        yield st.heap_set(r, k, v if isinstance(v, Opt) else Opt(False, v)), ("normal",)
+
+    def call_method(self, eng: Any, st: State, r: Ref, name: str, args: list, kwargs: dict, node: Any, ctx: Any):
+        raise Unsupported(f"dict.{name} on the repeated-terms dict", node)
+
+
+class HandlersModel:
+    """`{type: getattr(self, name) ...}` built from a class-level table: .get(type(x)) resolves to the bound method"""
+    name = "dispatch table built from a class-level {type: method name} literal"
+    kind = "handlers"
+
+    def make(self, eng: Any, st: State, sort: Sort, name: str) -> tuple[State, Any, list]:
+        st, r = eng.alloc(st, "handlers", "dict", table=sort.arg, owner=None)
+        return st, r, []
+
+    def getattr(self, eng: Any, st: State, r: Ref, attr: str, node: Any, ctx: Any):
+        yield st, BuiltinMethod(r, attr)
+
+    def call_method(self, eng: Any, st: State, r: Ref, name: str, args: list, kwargs: dict, node: Any, ctx: Any):
+        if name != "get" or len(args) != 1:
+            raise Unsupported(f"handlers.{name}", node)
+        key = args[0]
+        owner = st.locals.get("self")
+        if not isinstance(owner, Ref):
+            raise Unsupported("dispatch table used outside a method", node)
+        cls = st.obj(owner).cls
+        found = cls.find_class_attr(st.obj(r).get("table"))
+        if found is None:
+            raise Unsupported(f"class-level table {st.obj(r).get('table')} not found", node)
+        disp = eng.eval_const_expr(found[1], found[0].module, node)
+        pairs = eng.display_dict(disp, node)
+        for k, mname in pairs:
+            if key == k:
+                m = cls.find_method(mname)
+                if m is None:
+                    raise Unsupported(f"handler {mname} not found", node)
+                yield st, V.BoundMethod(owner, m)
+                return
+        yield st, None
+
+
 def install(reg: Any = REGISTRY) -> None:
+    reg.models["slotdict"] = SlotDictModel()
+    reg.models["handlers"] = HandlersModel()
     reg.models["bytes"] = BytesModel()
     reg.models["base:UserList"] = UserListModel()
     od = ODModel()
